@@ -38,6 +38,16 @@ fn scripts() -> Vec<(Vec<(usize, Step)>, usize)> {
     out
 }
 
+/// Scripts for the pair agent (`asys::agent2`): lanes and stores whose numeric item ids coincide,
+/// holding equal values at different times.
+fn pair_scripts() -> Vec<(Vec<(usize, Step)>, usize)> {
+    vec![
+        (sequential(&[vec![link("v"), link("w"), act(&["@setv(1)", "@setw(1)"]), act(&["@setvs(2)", "@setws(2)"]), act(&["@setv(2)", "@setw(2)"])]]), 1),
+        (sequential(&[vec![link("v"), act(&["@setvs(1)", "@setws(1)"]), act(&["@setv(2)", "@setw(2)"]), act(&["@setvs(2)", "@setws(2)"]), cmd("v", "3"), cmd("w", "3"), act(&["@setvs(3)", "@setws(3)"])]]), 1),
+        (sequential(&[vec![sync("w"), cmd("w", "5"), act(&["@setws(6)", "@setvs(6)"]), cmd("w", "6"), cmd("v", "6"), act(&["@setws(5)"]), cmd("w", "5")]]), 1),
+    ]
+}
+
 fn base(script: &[(usize, Step)], remotes: usize, cap: usize, budget: usize, mode: Mode) -> Cfg {
     let mut c = Cfg::basic(script.to_vec(), remotes);
     // capacity 17 stands for: large remote channel, tiny (8 byte) lane -> runtime channels
@@ -92,6 +102,23 @@ fn main() {
                     c.store_fault = Some((kind, n));
                     cut_cfgs.push(c);
                 }
+            }
+        }
+    }
+    // the pair agent: item ids of lanes and stores coincide
+    for (script, remotes) in &pair_scripts() {
+        for &(cap, budget, mode) in &grid {
+            let mut b = base(script, *remotes, cap, budget, mode);
+            b.extra = "pair-agent".into();
+            let len = match run_one::<AsWorld>(&b, &[], false) {
+                Ok(r) => r.choices.len() as u64,
+                Err(e) => vcommon::machinery_failure(&format!("canonical run failed: {}", e)),
+            };
+            sched_cfgs.push(b.clone());
+            for k in 1..=len {
+                let mut c = b.clone();
+                c.crash_at = Some(k);
+                cut_cfgs.push(c);
             }
         }
     }
